@@ -171,17 +171,25 @@ func vpH_c12_transform() {
 // Field scope on a command step.
 func vpH_c12_scope() {
 	v := vpStrUpTo(2, "x-z{}")
+	switch vpInt(0, 2) { // values that are themselves tokens: replaced once, never looked at again
+	case 1:
+		v = "{{matrix.arch}}"
+	case 2:
+		v = "{{matrix.nope}}"
+	}
 	named := vpBool()
 	tok, dim := "{{matrix}}", ""
 	if named {
 		tok, dim = "{{ matrix.os }}", "os"
 	}
 	sig := &Signature{Algorithm: tok, SignedFields: []string{tok}, Value: tok}
-	m := &Matrix{Setup: MatrixSetup{dim: {v, tok}}, RemainingFields: map[string]any{tok: tok}}
+	m := &Matrix{Setup: MatrixSetup{dim: {v, tok}, "arch": {"w"}}, RemainingFields: map[string]any{tok: tok}}
+	cpre := "c"
+	noCmd := vpBool()
 	step := &CommandStep{
 		Key:             "k" + tok,
 		Label:           "l" + tok,
-		Command:         "c" + tok + tok,
+		Command:         cpre + tok + tok,
 		Plugins:         Plugins{{Source: "p" + tok, Config: map[string]any{"a" + tok: "b" + tok, "n": []any{tok, 3}}}},
 		Env:             map[string]string{"E" + tok: "v" + tok},
 		Signature:       sig,
@@ -193,13 +201,18 @@ func vpH_c12_scope() {
 	withOrdered := vpBool()
 	if withOrdered {
 		step.RemainingFields["agents"] = om
+		// ... and one whose first value is a list and a mapping (held by reference) and whose later key changes
+		step.RemainingFields["notify"] = vpMapOf("l", []any{tok, vpMapOf("in", tok)}, "k"+tok, "1")
+	}
+	if noCmd {
+		step.Command = ""
 	}
 	empty := vpBool()
 	if empty {
 		step.Matrix = nil
 		err := step.InterpolateMatrixPermutation(MatrixPermutation{})
 		vpAssert(err == nil, "empty permutation on a step without matrix is accepted")
-		vpAssert(step.Command == "c"+tok+tok && step.Label == "l"+tok && step.Key == "k"+tok, "empty permutation changes nothing (scalars)")
+		vpAssert((noCmd && step.Command == "" || !noCmd && step.Command == "c"+tok+tok) && step.Label == "l"+tok && step.Key == "k"+tok, "empty permutation changes nothing (scalars)")
 		vpAssert(step.Env["E"+tok] == "v"+tok && step.Plugins[0].Source == "p"+tok && step.RemainingFields["r"+tok] == any("s"+tok), "empty permutation changes nothing (containers)")
 		if withOrdered {
 			_, kept := om.Get("f" + tok)
@@ -207,9 +220,13 @@ func vpH_c12_scope() {
 		}
 		return
 	}
-	err := step.InterpolateMatrixPermutation(MatrixPermutation{dim: v})
+	err := step.InterpolateMatrixPermutation(MatrixPermutation{dim: v, "arch": "w"})
 	vpAssert(err == nil, "a valid permutation is applied without error")
-	vpAssert(step.Command == "c"+v+v, "command: tokens replaced")
+	if noCmd {
+		vpAssert(step.Command == "", "an empty command stays empty")
+	} else {
+		vpAssert(step.Command == "c"+v+v, "command: tokens replaced")
+	}
 	vpAssert(step.Label == "l"+v, "label: tokens replaced")
 	vpAssert(step.Plugins[0].Source == "p"+v, "plugin source: tokens replaced")
 	cfg := step.Plugins[0].Config.(map[string]any)
@@ -230,13 +247,30 @@ func vpH_c12_scope() {
 			okm = hasA && a == any("1") && hasB && b == any(v) && hasC && c3 == any("3") && hasD && d == any("4")
 		}
 		vpAssert(okm, "nested ordered mappings in unknown fields: tokens replaced in every key (first, middle, last) and value")
-		vpAssert(len(step.RemainingFields) == 2 && step.RemainingFields["r"+v] == any("s"+v), "unknown fields: tokens replaced")
+		vpAssert(len(step.RemainingFields) == 3 && step.RemainingFields["r"+v] == any("s"+v), "unknown fields: tokens replaced")
+		nt, isOM2 := step.RemainingFields["notify"].(*ordered.MapSA)
+		okn := isOM2 && nt.Len() == 2
+		if okn {
+			l, hasL := nt.Get("l")
+			kk, hasK := nt.Get("k" + v)
+			ll, isL := l.([]any)
+			okn = hasL && hasK && kk == any("1") && isL && len(ll) == 2 && ll[0] == any(v)
+			if okn {
+				in, isIn := ll[1].(*ordered.MapSA)
+				okn = isIn && in.Len() == 1
+				if okn {
+					iv, _ := in.Get("in")
+					okn = iv == any(v)
+				}
+			}
+		}
+		vpAssert(okn, "lists and mappings held inside a nested ordered mapping are rewritten exactly once, also when a later key of that mapping changes")
 	} else {
 		vpAssert(len(step.RemainingFields) == 1 && step.RemainingFields["r"+v] == any("s"+v), "unknown fields: tokens replaced")
 	}
 	vpAssert(step.Key == "k"+tok, "the step key is unchanged")
 	vpAssert(step.Signature == sig && sig.Algorithm == tok && sig.Value == tok && sig.SignedFields[0] == tok, "the signature is unchanged")
-	vpAssert(step.Matrix == m && len(m.Setup) == 1 && len(m.Setup[dim]) == 2 && m.Setup[dim][0] == v && m.Setup[dim][1] == tok && m.RemainingFields[tok] == any(tok), "the matrix definition is unchanged")
+	vpAssert(step.Matrix == m && len(m.Setup) == 2 && len(m.Setup[dim]) == 2 && m.Setup[dim][0] == v && m.Setup[dim][1] == tok && m.RemainingFields[tok] == any(tok), "the matrix definition is unchanged")
 }
 
 // A token that names a dimension the permutation does not have makes the call
